@@ -180,8 +180,9 @@ class Report:
         if self.engine_errors:
             for e in self.engine_errors:
                 print("ENGINE-ERROR:", e)
-            print(f"check {self.prop}: machinery failure ({len(self.engine_errors)}), nothing is reported")
-            return 3
+            if not any(not no_input for _, _, no_input in self.violations):
+                print(f"check {self.prop}: machinery failure ({len(self.engine_errors)}), nothing is reported")
+                return 3
         for path, name, no_input in self.violations:
             print(f"VIOLATION property={self.prop} replay={path}" + (" no-failing-input-found" if no_input else ""))
         print(f"check {self.prop} [{self.tier}]: obligations={nob} discharged={ndis} bounded_checks={len(self.bounded)} "
